@@ -62,6 +62,7 @@ func (s *stringList) Set(v string) error { *s = append(*s, v); return nil }
 
 func main() {
 	debug.SetGCPercent(400)
+	debug.SetMemoryLimit(12 << 30) // soft limit: the collector works harder instead of letting the heap grow fivefold
 	cfg := &Config{}
 	var files, stubs stringList
 	var out string
